@@ -70,6 +70,9 @@ func (l *lookup) shadow(key string) {
 func (l *lookup) unshadow(key string) {
 	if n, ok := l.keyToIndex["~"+key]; ok {
 		l.keyToIndex[key] = n
+		// the entry has moved up one level; without this the deepest "~..." alias
+		// survives and resurrects key when the outermost declaration is dropped
+		delete(l.keyToIndex, "~"+key)
 		l.unshadow("~" + key)
 	}
 }
